@@ -415,7 +415,8 @@ class Relation:
         return Relation(extended_vars, matrix1), Relation(extended_vars,
                                                           matrix2)
 
-    def eval(self, choices: List[int], index: int, *scalars: str) -> Choices:
+    def eval(self, choices: List[int], index: int, *scalars: str,
+             recorded=None) -> Choices:
         """Evaluate program matrix for possible derivation choices.
 
         Arguments:
@@ -426,7 +427,7 @@ class Relation:
         Returns:
             A choice object for the evaluated matrix.
         """
-        infinity_deltas = set()
+        infinity_deltas = set(recorded or ())
 
         # get all choices leading to infinity
         for row in self.matrix:
